@@ -34,13 +34,19 @@ def harness_env():
 
 
 last_import = {}
+last_genwritten = 0
+last_hexrecords = 0
 
 
 def run_driver(exe, cases, timeout=2400):
     """Returns (compared, mismatches:int, by_kind:{what: [lines]}, raw log)."""
     rc, log = vlib.sh([exe, cases], timeout=timeout)
     m = re.search(r"CASES (\d+) COMPARED (\d+) MISMATCHES (\d+)", log)
-    global last_skeleton, last_marks, last_import
+    global last_skeleton, last_marks, last_import, last_genwritten, last_hexrecords
+    mh = re.search(r"HEXRECORDS (\d+)", log)
+    last_hexrecords = int(mh.group(1)) if mh else 0
+    mg = re.search(r"GENWRITTEN (\d+)", log)
+    last_genwritten = int(mg.group(1)) if mg else 0
     mi = re.search(r"IMPORTCMP (\d+) OK (\d+) ERR (\d+) KINDOK (\d+) UNMAPPED (\d+) KINDOUTSIDE (\d+)", log)
     last_import = dict(zip(("compared", "ok", "err", "kind_ok", "unmapped", "kind_outside_model_domain"), map(int, mi.groups()))) if mi else {}
     ms = re.search(r"SKELETON (\d+)", log)
@@ -131,7 +137,8 @@ def _read_records(cases, want, max_len, streams_cap=6):
                     cur = {"skip": True}
                     continue
                 cur = {"id": p[0], "stream": p[1], "hex": p[2] == "1", "toks": [], "prs": [], "fmt": [], "digits": [],
-                       "domain": False, "text": None, "parse": None, "coqast": None, "wtext": None}
+                       "domain": False, "text": None, "parse": None, "coqast": None, "wtext": None, "genast": None, "genfmt": [],
+                       "genprojeq": None}
             elif cur is None:
                 continue
             elif tag == "TEXT":
@@ -161,6 +168,13 @@ def _read_records(cases, want, max_len, streams_cap=6):
                 cur["coqast"] = rest
             elif tag == "WTEXT":
                 cur["wtext"] = [int(x) for x in rest.split(" ")[1:]]
+            elif tag == "GENAST":
+                cur["genast"] = rest
+            elif tag == "GENPROJEQ":
+                cur["genprojeq"] = rest.strip() == "1"
+            elif tag == "GENFMT":
+                t = rest.split(" ")
+                cur["genfmt"].append((int(t[0]), [int(x) for x in t[2:]]))
             elif tag == "END":
                 r, cur = cur, None
                 if not r["domain"] or r["text"] is None or len(r["text"]) > max_len or r["parse"] is None or r["parse"][0] == "panic":
@@ -225,6 +239,77 @@ Fixpoint lookup_prs (tbl : list (str * option N)) (v : str) : option N :=
 Fixpoint lookup_fmt (tbl : list (N * str)) (b : N) : str :=
   match tbl with [] => [] | (k, r) :: t => if N.eqb k b then r else lookup_fmt t b end.
 """
+
+
+def _read_generated(cases, want, max_len=2500):
+    """Records of GENERATED documents (stream doc) that carry the document as a Gallina term: up to `want`,
+    alternating number modes, those whose projection is not the parser image's (normalised by the writer) first."""
+    out, cur = {True: [], False: []}, None
+    with open(cases, encoding="utf-8", errors="replace") as f:
+        for line in f:
+            tag, _, rest = line.rstrip("\n").partition(" ")
+            if tag == "CASE":
+                p = rest.split(" ")
+                cur = {"id": p[0], "hex": p[2] == "1", "genfmt": [], "genast": None, "genprojeq": None, "text": None} if p[1] == "doc" else None
+            elif cur is None:
+                continue
+            elif tag == "TEXT":
+                t = rest.split(" ")
+                cur["text"] = [int(x) for x in t[1:]]
+            elif tag == "GENAST":
+                cur["genast"] = rest
+            elif tag == "GENPROJEQ":
+                cur["genprojeq"] = rest.strip() == "1"
+            elif tag == "GENFMT":
+                t = rest.split(" ")
+                cur["genfmt"].append((int(t[0]), [int(x) for x in t[2:]]))
+            elif tag == "END":
+                r, cur = cur, None
+                if r["genast"] and r["text"] is not None and len(r["text"]) <= max_len:
+                    out[bool(r["genprojeq"])].append(r)
+    picked = []
+    a, b = out[False], out[True]
+    # two thirds from the documents the writer normalises (absent header sections, empty version, retyped values)
+    while len(picked) < want and (a or b):
+        for src in (a, a, b):
+            if src and len(picked) < want:
+                picked.append(src.pop(len(src) // 2))
+    return picked
+
+
+def _coq_generated(r, tamper=False):
+    cid = ("GT" if tamper else "G") + r["id"]
+    text = list(r["text"])
+    if tamper:
+        text[len(text) // 2] = text[len(text) // 2] + 1
+    out = ["Definition gfmt_%s : N -> str := lookup_fmt [%s]." % (cid, ";".join("(%d, %s)" % (b, _nl(t)) for b, t in r["genfmt"])),
+           "Goal write gfmt_%s %s (%s) = %s." % (cid, "true" if r["hex"] else "false", r["genast"], _nl(text)),
+           'Proof. first [ vm_compute; reflexivity | idtac "VMMISMATCH %s writer-generated" ]. Abort.' % cid,
+           'Goal True. idtac "VMCASE %s". Abort.' % cid]
+    return "\n".join(out)
+
+
+def vm_generated_writer(ctx, cases, want=40):
+    """write(model of the GENERATED document) = dbc.Write(generated document), evaluated inside Coq (vm_compute) on the
+    documents shipped as Gallina terms.  Returns dict(cases, normalised, mismatches, negative_detected)."""
+    recs = _read_generated(cases, want)
+    if not recs:
+        return {"cases": 0, "mismatches": ["no generated document sampled"], "negative_detected": False}
+    body = [VM_HEADER] + [_coq_generated(r) for r in recs] + [_coq_generated(recs[0], tamper=True)]
+    d = os.path.join(ctx.scratch, "vmgen")
+    os.makedirs(d, exist_ok=True)
+    path = os.path.join(d, "gencases.v")
+    open(path, "w").write("\n".join(body) + "\n")
+    with vlib.Lock("coq"):
+        rc, log = vlib.sh(["coqc", "-R", vlib.COQ, "Acme", "-w", "-notation-overridden", path], cwd=d, timeout=1200)
+    done = re.findall(r"VMCASE (\S+)", log)
+    mism = re.findall(r"VMMISMATCH (\S+) (\S+)", log)
+    neg = [m for m in mism if m[0].startswith("GT")]
+    real = ["%s:%s" % m for m in mism if not m[0].startswith("GT")]
+    if rc != 0:
+        real.append("coqc failed: " + log[-400:])
+    return {"cases": len([c for c in done if not c.startswith("GT")]), "normalised_by_the_writer": sum(1 for r in recs if not r["genprojeq"]),
+            "hex_mode": sum(1 for r in recs if r["hex"]), "mismatches": real, "negative_detected": bool(neg), "log_tail": log[-400:]}
 
 
 def vm_crosscheck(ctx, cases, want=60, max_len=1500):
